@@ -82,6 +82,23 @@ fn main() {
         std::process::exit(2);
     }
     let mode = args[1].as_str();
+    if mode == "lift" {
+        // fvh lift <translator> <hex bytes> <hex address>: print the lifted IL
+        use falcon::translator::Options;
+        let bytes: Vec<u8> = (0..args[3].len() / 2).map(|i| u8::from_str_radix(&args[3][2 * i..2 * i + 2], 16).unwrap()).collect();
+        let addr = u64::from_str_radix(args.get(4).map(|s| s.trim_start_matches("0x")).unwrap_or("1000"), 16).unwrap();
+        let t = c05::translator(&args[2]);
+        match t.translate_block(&bytes, addr, &Options::default()) {
+            Ok(b) => {
+                for (a, g) in b.instructions() {
+                    println!("--- {:x}\n{}", a, g);
+                }
+                println!("successors: {:?}", b.successors().iter().map(|(a, c)| format!("{:x} if {:?}", a, c.as_ref().map(|c| format!("{}", c)))).collect::<Vec<_>>());
+            }
+            Err(e) => println!("error {:?}", e),
+        }
+        return;
+    }
     if mode == "disasm" {
         // fvh disasm ppc|mips|mipsel|x86|amd64 <hex bytes>
         use falcon_capstone::capstone as cs;
